@@ -6,7 +6,7 @@ import gens as G
 from props.c05 import KIND, QUAD, BOOL, SPIN, cls_of
 
 ID = "C14"
-IMPORTS = ("From QV.Model Require Import Base Matrix Arith Expr Extrema Sat PCBO Convert PCSO.\nFrom QV.Proofs Require Import InvProofs.\n"
+IMPORTS = ("From QV.Model Require Import Base Matrix Arith Expr Extrema Sat PCBO Convert PCSO.\nFrom QV.Proofs Require Import InvProofs InvConstraint.\n"
            "From QV.Corr Require Import C14.")
 CASE_TYPE = "(cin * cout)"
 CHUNK = 40
